@@ -427,6 +427,9 @@ fn fn_item<'tcx>(cx: &mut Cx<'tcx>, def: LocalDefId) -> J {
         }
     }
     o.put("name", J::s(tcx.item_name(did).to_string()));
+    // the module the item is written in (layering rules are stated over modules, not files)
+    let m = tcx.parent_module_from_def_id(def);
+    o.put("module", J::s(cx.path(m.to_def_id())));
     let sp = tcx.def_span(did);
     o.put("file", J::s(cx.file_of(sp)));
     let full = tcx.hir_span_with_body(tcx.local_def_id_to_hir_id(def));
